@@ -246,6 +246,13 @@ def read_logical(root, rel):
         return f.read()
 
 
+def logical_path(rel):
+    for sfx in COMP_SUFFIXES:
+        if rel.endswith('.' + sfx):
+            return rel[:-len(sfx) - 1]
+    return rel
+
+
 def project(root, top='Manifest', namer=None, cidnames=None, max_nodes=4000):
     """Abstract scenario of the real tree under `root` whose top-level Manifest is `top`
     (path relative to root).  Logical view: symlinks are followed (as os.walk(followlinks=True) and
@@ -296,13 +303,17 @@ def project(root, top='Manifest', namer=None, cidnames=None, max_nodes=4000):
                 contents[r] = data
                 nodes.append({'p': namer.path(r), 'k': 'file', 'h': hidden, 'cid': cidname(data),
                               'size': len(data), 'mt': int(st.st_mtime) - BASE_MTIME,
-                              'dev': st.st_dev % 100000, 'ino': 0, 'loop': False})
+                              'dev': st.st_dev % 100000, 'ino': 0, 'loop': False,
+                              'lp': namer.path(logical_path(r))})
             else:
                 nodes.append({'p': namer.path(r), 'k': 'other', 'h': hidden, 'cid': '', 'size': 0,
                               'mt': 0, 'dev': st.st_dev % 100000, 'ino': 0, 'loop': False})
 
     rst = os.stat(root)
     visit('', [(rst.st_dev, rst.st_ino)])
+    for n in nodes:
+        n.setdefault('lp', n['p'])
+        n['comp'] = 'plain' if n['lp'] == n['p'] else n['p'][-1].rsplit('.', 1)[-1]
 
     # Manifests: transitively from the top-level one, whether or not the references match
     mfs = []
@@ -336,6 +347,21 @@ def project(root, top='Manifest', namer=None, cidnames=None, max_nodes=4000):
             if e['tag'] == 'MANIFEST' and not _odd_path(e['path']):
                 queue.append(os.path.normpath(os.path.join(mdir, e['path'])))
 
+    # unregistered Manifest files (standard names, not reachable from the top): update may adopt them
+    registered = set(parsed)
+    for r in sorted(contents):
+        if os.path.basename(r) in ('Manifest', 'Manifest.gz', 'Manifest.bz2', 'Manifest.lzma', 'Manifest.xz') \
+                and r not in parsed and r != top:
+            comp = compression_of(r)
+            try:
+                text = decompress(contents[r], comp).decode('utf8')
+                pm = parse_manifest_text(text)
+                usize = len(text.encode('utf8'))
+            except Exception:
+                pm = {'ok': False, 'signed': False, 'entries': []}
+                usize = 0
+            parsed[r] = (pm, comp, usize)
+
     # reverse digest table over every content of the scenario and every hash name in use
     hnames = set()
     for pm, _, _ in parsed.values():
@@ -358,9 +384,11 @@ def project(root, top='Manifest', namer=None, cidnames=None, max_nodes=4000):
                 v = e['ck'][h]
                 ck.append([h, rev.get((h, v), ('j' if h in HASHLIB else 'u') + v[:12])])
             ents.append({'tag': e['tag'], 'p': namer.path(e['path']), 'size': min(e['size'], 2**31 - 1),
-                         'ck': ck, 'odd': _odd_path(e['path']) if e['tag'] != 'TIMESTAMP' else False})
-        mfs.append({'p': namer.path(mp), 'ok': pm['ok'], 'comp': comp, 'signed': bool(pm['signed']),
-                    'usize': usize, 'entries': ents})
+                         'ck': ck, 'odd': _odd_path(e['path']) if e['tag'] != 'TIMESTAMP' else False,
+                         'ts': e.get('ts', '')})
+        mfs.append({'p': namer.path(mp), 'lp': namer.path(logical_path(mp)), 'ok': pm['ok'], 'comp': comp,
+                    'signed': bool(pm['signed']), 'usize': usize, 'entries': ents,
+                    'reg': mp in registered})
     return {'nodes': nodes, 'mfs': mfs, 'top': namer.path(top)}
 
 
